@@ -130,6 +130,27 @@ class SharedState(object):
             self._foreign = fm
         return fm
 
+    def _insts(self, v):
+        """the athlib-class instances held (directly, or one level down) by a container, or None if it holds anything else that is not plain data"""
+        out = []
+        items = list(v.values()) if isinstance(v, dict) else list(v)
+        for x in items:
+            subs = [x]
+            if isinstance(x, (list, tuple)):
+                subs = list(x)
+            elif isinstance(x, dict):
+                subs = list(x.values())
+            for y in subs:
+                if hasattr(y, '__dict__') and type(y).__module__.startswith(self.prefix) and not isinstance(y, type):
+                    try:
+                        copy.deepcopy(vars(y))
+                    except Exception:
+                        return None
+                    out.append(y)
+                elif _size(y) > SMALL:
+                    return None
+        return out
+
     def capture(self):
         snap = {}
         snap[('__foreign__', '')] = ('foreign', [(m, dict(vars(m))) for m in self._foreign_modules()], None)
@@ -143,6 +164,10 @@ class SharedState(object):
                     snap[(label, k)] = ('ident', v, None)           # its own holder covers the content
                 elif _size(v) <= SMALL:
                     snap[(label, k)] = ('copy', v, copy.deepcopy(v))
+                elif isinstance(v, (dict, list)) and len(v) <= 500 and self._insts(v) is not None:
+                    # a small container of athlib objects (a memo of calculators, graders ...): its membership and the objects' own attributes
+                    insts = self._insts(v)
+                    snap[(label, k)] = ('objs', v, (copy.copy(v), [(o, copy.deepcopy(vars(o))) for o in insts]))
                 else:
                     snap[(label, k)] = ('big', v, fingerprint(v))
         return snap
@@ -197,6 +222,21 @@ class SharedState(object):
                             pass
             for k, (how, v, extra) in bl.get(label, ()):
                 if how == 'keys':
+                    continue
+                if how == 'objs':
+                    if d.get(k, self) is not v:
+                        setattr(h, k, v)
+                    shallow, insts = extra
+                    if isinstance(v, dict):
+                        if len(v) != len(shallow) or any(v.get(kk, self) is not vv for kk, vv in shallow.items()):
+                            v.clear()
+                            v.update(shallow)
+                    elif len(v) != len(shallow) or any(a is not b for a, b in zip(v, shallow)):
+                        v[:] = shallow
+                    for o, dd in insts:
+                        if vars(o) != dd:
+                            vars(o).clear()
+                            vars(o).update(copy.deepcopy(dd))
                     continue
                 if how in ('rebind', 'ident', 'big'):
                     if d.get(k, self) is not v:
